@@ -20,6 +20,12 @@
      NA <loop 0|1> <event>:<c0|f<errno>> …  net_callback_accept (loop = accept-loop) with the accept4 answer held ready
    Output:  one token per delivered event  <p|acc|nil>/<h|->/<accept4 calls>     (h: a handler fiber was scheduled with the accepted connection)
    The case groups of the two switches are the regenerated Gen.Net lists.
+     S <act> …      the listener-slot registry of ONE stream (World.runCurrent: guards = regenerated Gen.Stream facts):
+        s<f>:<r|w> (fiber f starts an operation)  |  e<f> (the implementation ended fiber f's operation)  |  c (janet_stream_close)
+   Output:  one token per act:  s -> A (admitted, registered in the slot) | R (refused: raises) | ? (not possible: f already waits)
+                                e -> f (f is the registered fiber of its direction: finished) | X (f waits but is NOT registered: orphan)
+                                     | n (f has no pending operation: it was refused / woken by close before)
+                                c -> c
 -/
 import Driver.Util
 import JanetModel.Stream.Model
@@ -268,6 +274,40 @@ def runA (loop : Bool) : List String → List String → Option (List String)
 
 end N
 
+namespace S
+open JanetModel.Stream
+
+def parseDir (c : String) : Option Dir := if c == "r" then some .rd else if c == "w" then some .wr else none
+
+def runS : List String → World → List String → List String
+  | [], _, acc => acc.reverse
+  | t :: ts, w, acc =>
+    match t.toList with
+    | ['c'] => runS ts (World.step JanetModel.Gen.Stream.guardsReadSlot JanetModel.Gen.Stream.guardsWriteSlot w .close) ("c" :: acc)
+    | 's' :: r =>
+      match (String.ofList r).splitOn ":" with
+      | [fs, ds] =>
+        match fs.toNat?, parseDir ds with
+        | some f, some d =>
+          let w' := World.step JanetModel.Gen.Stream.guardsReadSlot JanetModel.Gen.Stream.guardsWriteSlot w (.start f d false)
+          let tok := if (w.pend f).isSome then "?" else if w'.pend f == some d then "A" else "R"
+          runS ts w' (tok :: acc)
+        | _, _ => runS ts w ("parse-error" :: acc)
+      | _ => runS ts w ("parse-error" :: acc)
+    | 'e' :: r =>
+      match (String.ofList r).toNat? with
+      | some f =>
+        match w.pend f with
+        | some d =>
+          if w.slot d == some f then
+            runS ts (World.step JanetModel.Gen.Stream.guardsReadSlot JanetModel.Gen.Stream.guardsWriteSlot w (.ready d true)) ("f" :: acc)
+          else runS ts w ("X" :: acc)
+        | none => runS ts w ("n" :: acc)
+      | none => runS ts w ("parse-error" :: acc)
+    | _ => runS ts w ("parse-error" :: acc)
+
+end S
+
 def step (_ : Unit) (toks : List String) : Unit × String :=
   match toks with
   | "L" :: st :: ops =>
@@ -288,6 +328,7 @@ def step (_ : Unit) (toks : List String) : Unit × String :=
         ((), P.run JanetModel.Gen.ProcStat.movesStdSources ⟨sp == "1", ri, ro, re⟩ ⟨pin, pout, perr, t0, t1, t2, ok == "1", din, dout, derr⟩ (P.tabOf op) q)
       | _, _, _, _, _, _ => ((), "parse-error")
     | _, _, _, _, _, _, _ => ((), "parse-error")
+  | "S" :: rest => ((), String.intercalate " " (S.runS rest JanetModel.Stream.World.init []))
   | "NC" :: rest =>
     match N.runC rest [] with
     | some out => ((), String.intercalate " " out)
